@@ -1,3 +1,112 @@
-From ZV Require Import Lib.Base Model.Score.
-Theorem C29_placeholder : True. Proof. exact I. Qed.
-Print Assumptions C29_placeholder.
+(** C29 — ranking is deterministic, finite and ordered.
+    Model: Model/Score.v over exact rationals, constants in Generated/ScoreConsts.v (regenerated from
+    the Go source by translator/scoreconsts on every run).  Proofs: Proofs/Score.v.
+    Determinism is by construction: every score and every order below is a Gallina function of the
+    index-derived features, the query weights and the options (the implementation's side of this
+    claim is the Go oracle: bitwise-equal repeated searches — which found and led to the repair of
+    the BM25 summation order, /repo e48ad27).  binary64 rounding is not modelled: see NOTES.md. *)
+From Coq Require Import QArith Sorting.Sorted Sorting.Permutation.
+From ZV Require Import Lib.Base Generated.ScoreConsts Model.Score Proofs.Score.
+Open Scope Q_scope.
+
+(** ---- 1. Debug scoring never changes a score or an order: the whole ranking (file order, file
+    scores, per-file match order and scores) computed with DebugScore equals the one without, and
+    without the flag no explanation is produced. *)
+Theorem C29_debug_neutral : forall fs : list (N * N * fin),
+  rank_all true fs = rank_all false fs /\
+  (forall f, fst (score_file true f) = fst (score_file false f) /\ snd (score_file false f) = []).
+Proof. intros fs. split; [apply rank_all_neutral | intros f; apply score_file_neutral]. Qed.
+Print Assumptions C29_debug_neutral.
+
+(** ---- 2. Matches within a file are returned by non-increasing score and are exactly the file's
+    matches (sortMatchesByScore / sortChunkMatchesByScore after scoreFile's in-file order term). *)
+Theorem C29_matches_sorted : forall dbg f,
+  Sorted (fun a b : nat * Q => snd b <= snd a) (rank_matches dbg f) /\
+  Permutation (combine (seq 0 (length (fst (fst (score_file dbg f))))) (fst (fst (score_file dbg f))))
+              (rank_matches dbg f).
+Proof. exact rank_matches_sorted. Qed.
+Print Assumptions C29_matches_sorted.
+
+(** ---- 3. Files: SortFiles returns the score-sorted list [l] itself, or [l] with exactly one file
+    [c] moved to position c_boostOffset (= third place), where [c] is the FIRST file at or after
+    that position whose score is not below c_minScoreRatio x the score of the displaced file and
+    whose extension does not occur among the files before that position. *)
+Theorem C29_files_sorted_except_promotion : forall ms : list sfile,
+  let l := sort_desc sf_score ms in
+  Permutation ms l /\ Sorted (fun a b => sf_score b <= sf_score a) l /\
+  (sort_files ms = l \/
+   exists i c displaced,
+     (c_boostOffset + 1 < length l)%nat /\
+     nth_error l c_boostOffset = Some displaced /\
+     nth_error (skipn c_boostOffset l) i = Some c /\
+     sort_files ms = firstn c_boostOffset l ++ c :: firstn i (skipn c_boostOffset l) ++ skipn (S i) (skipn c_boostOffset l) /\
+     eligible (firstn c_boostOffset l) (sf_score displaced * c_minScoreRatio) c = true /\
+     (forall j d, (j < i)%nat -> nth_error (skipn c_boostOffset l) j = Some d ->
+                  eligible (firstn c_boostOffset l) (sf_score displaced * c_minScoreRatio) d = false)).
+Proof. exact sort_files_shape. Qed.
+Print Assumptions C29_files_sorted_except_promotion.
+
+(** consequence: non-increasing everywhere once the file in third place is taken out *)
+Theorem C29_files_sorted_but_one : forall ms : list sfile,
+  StronglySorted (fun a b => sf_score b <= sf_score a) (sort_files ms) \/
+  StronglySorted (fun a b => sf_score b <= sf_score a)
+                 (firstn c_boostOffset (sort_files ms) ++ skipn (S c_boostOffset) (sort_files ms)).
+Proof. exact sort_files_sorted_but_one. Qed.
+Print Assumptions C29_files_sorted_but_one.
+
+(** ---- 4. Scores are bounded: with boost weights in [0, W] (W >= 1), symbol-kind scores within the
+    generated maximum, repository rank in uint16 and a document number below the document count,
+    every match score lies in [0, base_bound * W] and every file score in [0, file_bound W];
+    for W <= 2^960 that is below 2^1023, i.e. finite in binary64. *)
+Theorem C29_scores_bounded : forall dbg f W,
+  fin_ok W f -> 1 <= W ->
+  0 <= snd (fst (score_file dbg f)) <= file_bound W /\
+  Forall (fun m => 0 <= fst (match_score dbg m) <= base_bound * W) (fi_matches f).
+Proof.
+  intros dbg f W H HW. split; [now apply file_score_bounds|].
+  destruct H as (HM & _). eapply Forall_impl; [|exact HM]. intros m Hm. now apply match_bounds.
+Qed.
+Print Assumptions C29_scores_bounded.
+
+Theorem C29_bounded_is_finite : forall W, 1 <= W <= inject_Z (2 ^ 960) -> file_bound W < inject_Z (2 ^ 1023).
+Proof.
+  intros W [H1 H2]. unfold file_bound, base_bound.
+  unfold c_ScoreOffset, c_scoreFactorAtomMatch, c_scoreWordMatch, c_scoreSymbol, c_maxKindFactor, c_scoreKindMatch,
+    c_scoreRepoRankFactor, c_scoreFileOrderFactor.
+  assert (B : W <= inject_Z (2 ^ 960)) by exact H2. clear H2.
+  apply Qle_lt_trans with (10000000 * (400 + (500 + 7000 + 10 * 100) * inject_Z (2 ^ 960)) + 100 * 65535 + 10).
+  - assert (M : (500 + 7000 + 10 * 100) * W <= (500 + 7000 + 10 * 100) * inject_Z (2 ^ 960)).
+    { apply Qmult_le_l; [reflexivity | exact B]. }
+    set (a := (500 + 7000 + 10 * 100) * W) in *. set (b := (500 + 7000 + 10 * 100) * inject_Z (2 ^ 960)) in *.
+    clearbody a b. Lqa.lra.
+  - vm_compute. reflexivity.
+Qed.
+Print Assumptions C29_bounded_is_finite.
+
+(** ---- non-vacuity *)
+Definition ex_cand_word : cand := {| c_sb := true; c_eb := true; c_kind := KNone; c_weight := 1 |}.
+Definition ex_cand_sym : cand := {| c_sb := true; c_eb := true; c_kind := KSym true true (Some 700); c_weight := 2 |}.
+Definition ex_fin (doc : Z) (ms : list (list (Z * list cand))) : fin :=
+  {| fi_atoms := 2; fi_rank := 70; fi_doc := doc; fi_ndocs := 5; fi_matches := ms |}.
+Definition ex_fs : list (N * N * fin) :=
+  [ (1%N, 0%N, ex_fin 0 [[(1%Z, [ex_cand_word])]; [(3%Z, [ex_cand_sym; ex_cand_word])]]);
+    (2%N, 0%N, ex_fin 1 [[(2%Z, [ex_cand_word])]]);
+    (3%N, 0%N, ex_fin 2 [[(2%Z, [ex_cand_word])]]);
+    (4%N, 1%N, ex_fin 3 [[(7%Z, [ex_cand_word])]]) ].
+(* file 1 first; the match on line 3 (a boosted symbol) ranks before the one on line 1; file 4 (novel
+   extension, score within 0.9) is promoted into third place ahead of file 3 *)
+Example ex_rank : map (fun x => (fst (fst x), map fst (snd x))) (rank_all true ex_fs) =
+  [(1%N, [1%nat; 0%nat]); (2%N, [0%nat]); (4%N, [0%nat]); (3%N, [0%nat])].
+Proof. vm_compute. reflexivity. Qed.
+Example ex_debug_tokens : snd (score_file true (ex_fin 0 [[(3%Z, [ex_cand_sym])]])) <> [].
+Proof. vm_compute. discriminate. Qed.
+Example ex_fin_ok : fin_ok 2 (ex_fin 0 [[(1%Z, [ex_cand_word])]; [(3%Z, [ex_cand_sym; ex_cand_word])]]).
+Proof.
+  unfold fin_ok, ex_fin; simpl. repeat split; try lia.
+  repeat constructor; unfold kind_ok; simpl; try exact I; try (unfold Qle; simpl; lia).
+Qed.
+Definition ex_scored : list sfile :=
+  map (fun x : N * N * fin => let '(i, e, f) := x in {| sf_id := i; sf_score := snd (fst (score_file false f)); sf_ext := e |}) ex_fs.
+Example ex_promotion :
+  map sf_id (sort_desc sf_score ex_scored) = [1; 2; 3; 4]%N /\ map sf_id (sort_files ex_scored) = [1; 2; 4; 3]%N.
+Proof. split; vm_compute; reflexivity. Qed.
